@@ -6,6 +6,22 @@ from .. import e1, sut, world as W
 from ..runner import Finding, load_known
 
 
+def apply_action(w, a):
+    if a[0] == "connect":
+        return w.connect(**a[1])
+    if a[0] == "act":
+        return w.act(a[1], a[2])
+    if a[0] == "end":
+        return w.end_client(a[1], a[2])
+    if a[0] == "end_many":
+        return w.end_many(a[1], a[2])
+    if a[0] == "half_open":
+        return w.half_open(a[1], a[2])
+    if a[0] == "half_complete":
+        return w.half_complete(a[1], a[2])
+    raise ValueError(a[0])
+
+
 def run_scenario(binary, hooks, scen):
     """scripted E1 history (regression probe / replay); returns (violations, note)"""
     scfg, mcfg = e1.base_cfg(binary, **scen.get("variant", {}))
@@ -18,14 +34,7 @@ def run_scenario(binary, hooks, scen):
         for a in scen["actions"]:
             if w.dead or not srv.alive():
                 break
-            if a[0] == "connect":
-                w.connect(**a[1])
-            elif a[0] == "act":
-                w.act(a[1], a[2])
-            elif a[0] == "end":
-                w.end_client(a[1], a[2])
-            elif a[0] == "end_many":
-                w.end_many(a[1], a[2])
+            apply_action(w, a)
         return [dict(rule=v.rule, props=list(v.props), signature=v.signature, detail=v.detail)
                 for v in w.violations], None
     except W.Inconclusive as ex:
